@@ -382,7 +382,9 @@ def schema_flow(chk, facts):
         chk.functions.add(f.name)
         for b, t in news:
             prod = slc.leaf_producers(f, t[2][0], extra_transparent=("Option::<T>::map", "::transpose"))
-            ok = any("param:%d" % i in prod for i in sparams) and "const" not in prod
+            # the schema parameter must reach the argument (taint through any helper call); a literal None / constant does not carry it
+            Ls = shape.Labels(f, None, None, param_labels={i: ["SCHEMA"] for i in sparams})
+            ok = "SCHEMA" in Ls.operand_labels(t[2][0]) and "const" not in prod
             n += 1
             chk.ob(rule, "%s@L%s" % (short(f.name), t[1].get("l")), ok,
                    "%s takes a schema and builds a JSON parser: the parser's schema argument is made of %s (must be the schema parameter)" % (short(f.name), sorted(prod)),
